@@ -280,3 +280,108 @@ def kwarg(call: ast.Call, name: str, pos: int | None = None) -> ast.AST | None:
     if pos is not None and len(call.args) > pos:
         return call.args[pos]
     return None
+
+
+# --------------------------------------------------------------------------- byte-level normal form of bytes-valued expressions
+@dataclass(frozen=True)
+class ByteVal:
+    """One output byte: bits [bit, bit+8) of `source` (source None = constant `const`).
+    checked: producing it raises unless the source fits the enclosing field (unmasked top byte of a struct field,
+    int.to_bytes overflow, bytes([x]) range); signed: the enclosing field is a signed struct code."""
+
+    source: str | None
+    bit: int = 0
+    checked: bool = False
+    signed: bool = False
+    const: int = 0
+
+    def __str__(self) -> str:
+        if self.source is None:
+            return f"0x{self.const:02x}"
+        return f"({self.source} >> {self.bit}) & 0xff" + (" [range-checked]" if self.checked else "") + (" [signed]" if self.signed else "")
+
+
+def _field_bytes(f: Field, nbytes: int, little: bool, signed: bool) -> list[ByteVal]:
+    out = []
+    for j in range(nbytes):
+        lo = 8 * j
+        if f.mask is not None and (f.mask >> lo) & 0xFF == 0:
+            out.append(ByteVal(None, 0, False, False, 0))
+            continue
+        if f.mask is not None and (f.mask >> lo) & 0xFF != 0xFF:
+            raise AnalysisError(f"byte layout: partial mask {hex(f.mask)} on byte {j} not modelled")
+        out.append(ByteVal(f.source, f.shift + lo, False, signed))
+    unmasked_top = f.mask is None or (f.mask >> (8 * nbytes)) != 0
+    if unmasked_top and out:
+        top = out[-1]
+        out[-1] = ByteVal(top.source, top.bit, True, signed, top.const)
+    return out if little else list(reversed(out))
+
+
+def packed_bytes(expr: ast.AST) -> list[ByteVal]:
+    """Byte-by-byte description of a bytes-valued expression built from struct.pack / int.to_bytes / bytes([..]) / b'..' / + / [a:b]."""
+    if isinstance(expr, ast.Constant) and isinstance(expr.value, bytes):
+        return [ByteVal(None, 0, False, False, b) for b in expr.value]
+    pc = pack_call(expr)
+    if pc is not None:
+        fmt, args = pc
+        if len(args) != len(fmt.fields):
+            raise AnalysisError(f"struct.pack arity mismatch in {unparse(expr)[:60]}")
+        if fmt.order not in ("<", ">", "!") and any(n > 1 for _c, n in fmt.fields):
+            raise AnalysisError(f"struct format {fmt.text!r}: native byte order on a multi-byte field")
+        out: list[ByteVal] = []
+        for (code, n), a in zip(fmt.fields, args):
+            f = field_of(a)
+            if f is None:
+                raise AnalysisError(f"byte layout: `{unparse(a)[:50]}` is not in shift/mask normal form")
+            out += _field_bytes(f, n, fmt.order == "<" or n == 1, code.islower() and code != "x")
+        return out
+    if isinstance(expr, ast.Call) and isinstance(expr.func, ast.Attribute) and expr.func.attr == "to_bytes":
+        n = const_int(expr.args[0]) if expr.args else None
+        order = const_str(expr.args[1]) if len(expr.args) > 1 else None
+        for k in expr.keywords:
+            if k.arg == "length":
+                n = const_int(k.value)
+            if k.arg == "byteorder":
+                order = const_str(k.value)
+        signed = any(k.arg == "signed" and getattr(k.value, "value", False) for k in expr.keywords)
+        f = field_of(expr.func.value)
+        if n is None or order not in ("little", "big") or f is None:
+            raise AnalysisError(f"byte layout: to_bytes call not modelled: {unparse(expr)[:60]}")
+        return _field_bytes(f, n, order == "little", signed)
+    if isinstance(expr, ast.Call) and call_name(expr) == "bytes" and len(expr.args) == 1 and isinstance(expr.args[0], (ast.List, ast.Tuple)):
+        out = []
+        for e in expr.args[0].elts:
+            f = field_of(e)
+            if f is None:
+                raise AnalysisError(f"byte layout: `{unparse(e)[:50]}` is not in shift/mask normal form")
+            out += _field_bytes(f, 1, True, False)
+        return out
+    if isinstance(expr, ast.BinOp) and isinstance(expr.op, ast.Add):
+        return packed_bytes(expr.left) + packed_bytes(expr.right)
+    if isinstance(expr, ast.Subscript) and isinstance(expr.slice, ast.Slice):
+        inner = packed_bytes(expr.value)
+        lo = const_int(expr.slice.lower) if expr.slice.lower is not None else None
+        hi = const_int(expr.slice.upper) if expr.slice.upper is not None else None
+        if (expr.slice.lower is not None and lo is None) or (expr.slice.upper is not None and hi is None) or expr.slice.step is not None:
+            raise AnalysisError("byte layout: non-constant slice")
+        # slicing away the bytes that carried a range check drops the check
+        return inner[lo:hi]
+    raise AnalysisError(f"byte layout: `{unparse(expr)[:70]}` not modelled")
+
+
+def want_le_bytes(source: str, nbytes: int) -> list[ByteVal]:
+    return [ByteVal(source, 8 * j) for j in range(nbytes)]
+
+
+def same_bytes(got: list[ByteVal], want: list[ByteVal], ignore_checked: bool = True) -> bool:
+    if len(got) != len(want):
+        return False
+    for g, w in zip(got, want):
+        if (g.source, g.bit if g.source else g.const) != (w.source, w.bit if w.source else w.const):
+            return False
+        if not ignore_checked and g.checked != w.checked:
+            return False
+        if g.signed != w.signed:
+            return False
+    return True
